@@ -296,6 +296,123 @@ Proof.
   vm_compute in Hparse. inversion Hparse; subst m'. split; reflexivity.
 Qed.
 
+(* ------------------------------------------------------------------ wave 7: the plugin stage
+   "No option of the tool that is not a filter / selection may remove messages from an export."  With a plugin option
+   (--file_transfer..., --nonverbose_path, --someip_path, --rewrite_path, --can_path, --muniic_path) convert() runs
+   plugins_process_msgs between the lifecycle stage and the writer (Dlt/WritePipeline.v: plugin, plugins_pass,
+   plugins_process, convert_o_plugins).  A chain of conservative plugins (never drop; may fill in a missing extended
+   header, and the timestamp when [allow_ts] -- the contract C19 establishes for the decoders) hands on every message, in
+   order, inside that contract: *)
+Theorem C02_plugin_stage_forwards_every_message (allow_ts : bool) (ps : list plugin) (ms : list msg) :
+  Forall (Conservative allow_ts) ps -> Forall2 (completes allow_ts) ms (plugins_process ps ms).
+Proof. intros H. exact (plugins_process_conservative allow_ts ms ps H). Qed.
+
+(* the export under such a stage, for ANY input file the reader accepts: to_write of the input's messages, in order, each
+   completed within the contract; with the completions undone it is the export without the stage *)
+Theorem C02_export_under_forwarding_plugin_stage (allow_ts : bool) (ps : list plugin) (data : bytes) ms st rest :
+  Forall (Conservative allow_ts) ps -> run_iter 0 data = Ok (ms, st, rest) ->
+  exists ms',
+    convert_o_plugins ps data = write_all ms' /\ Forall2 (completes allow_ts) ms ms' /\
+    write_all (uncomplete_all ms ms') = convert_o data.
+Proof.
+  intros Hps Hr.
+  assert (H0 : 0 <= u32max) by (vm_compute; discriminate).
+  destruct (run_iter_indices 0 data ms st rest H0 Hr) as [_ Hi].
+  exact (convert_o_plugins_conservative allow_ts ps data ms st rest Hps Hr Hi).
+Qed.
+
+(* plugins that forward every message untouched: the export IS the export without the stage *)
+Theorem C02_export_under_exact_plugin_stage (ps : list plugin) (data : bytes) :
+  Forall Exact ps -> convert_o_plugins ps data = convert_o data.
+Proof. exact (convert_o_plugins_exact ps data). Qed.
+
+(* the file-transfer plugin: [ft_forwards] is what the model of process_msg (C17, FileTransfer/Ft.v: step) returns, on the
+   arguments decoded by the model of the argument iterator (C18, Dlt/Args.v), whatever transfers it has seen; it drops
+   exactly the messages classified as FLDA, and only when keepFLDA is off *)
+Theorem C02_file_transfer_forwarding_is_process_msg (c : FT.cfg) (s s' : FT.st) (m : msg) (b : bool) :
+  FT.step c s (ft_view m) = Ok (s', b) ->
+  b = ft_forwards c m /\ (b = false <-> FT.classify c (ft_view m) = FT.KFlda /\ FT.c_keep_flda c = false).
+Proof.
+  intros H. pose proof (ft_forwards_is_step c s m s' b H) as Hb. split; [exact Hb|].
+  subst b. unfold ft_forwards. destruct (FT.classify c (ft_view m)); split; try discriminate; try (intros [E _]; discriminate).
+  - intros E. split; [reflexivity|exact E].
+  - intros [_ E]. exact E.
+Qed.
+
+(* `adlt convert --file_transfer=<glob> [--file_transfer_apid a] [--file_transfer_ctid c] [--file_transfer_path d] -o`:
+   convert() configures the plugin with keepFLDA = true (the CLI only extracts files; the exported log stays complete), so
+   for EVERY input, every glob, id restriction and auto-save directory the export is the export without these options *)
+Theorem C02_export_with_cli_file_transfer_options (apid ctid : option N) (dir : option (list N)) (glob : list N -> bool)
+    (data : bytes) :
+  convert_o_ft apid ctid dir glob data = convert_o data.
+Proof. exact (convert_o_ft_eq apid ctid dir glob data). Qed.
+
+(* ... hence the export clause holds under them: every message, in order, same fields; export of the export identical *)
+Theorem C02_convert_export_roundtrip_with_file_transfer_options (apid ctid : option N) (dir : option (list N))
+    (glob : list N -> bool) (data : bytes) ms st rest :
+  wf_bytes data -> file_micros_ok data -> run_iter 0 data = Ok (ms, st, rest) ->
+  exists bytes ms' st',
+    convert_o_ft apid ctid dir glob data = Ok (WOk bytes) /\
+    run_iter 0 bytes = Ok (ms', st', []) /\ Forall2 same_fields ms ms' /\ map m_index ms' = map m_index ms /\
+    i_skipped st' = 0 /\ i_processed st' = blen bytes /\
+    convert_o_ft apid ctid dir glob bytes = Ok (WOk bytes).
+Proof.
+  intros Hd Hm Hr. rewrite C02_export_with_cli_file_transfer_options.
+  destruct (C02_convert_export_roundtrip data ms st rest Hd Hm Hr) as (bytes & ms' & st' & H).
+  exists bytes, ms', st'. rewrite C02_export_with_cli_file_transfer_options. exact H.
+Qed.
+
+(* non-vacuity, and what the statement rests on: a file with a file transfer (hello, FLST, FLDA #1, text, FLDA #2, FLFI;
+   verbose log-info messages of apid FTA / ctid FTC, little endian).  The model recognises the two data packages
+   (classified FLDA; FLST / FLFI / the others are not).  Under the configuration convert() builds the export is the input
+   (6 messages); under the SAME configuration without a "keepFLDA" entry (from_json's default: false) the plugin stage
+   swallows both packages and the export holds 4 messages: hello, FLST, text, FLFI -- unless the id restriction
+   (--file_transfer_apid) excludes the messages from the plugin altogether. *)
+Definition ex_str (s : list N) : list N := [0; 2; 0; 0] ++ [N.of_nat (length s) + 1; 0] ++ s ++ [0].
+Definition ex_u32 (v : N) : list N := [67; 0; 0; 0; v; 0; 0; 0].
+Definition ex_raw (d : list N) : list N := [0; 4; 0; 0] ++ [N.of_nat (length d); 0] ++ d.
+Definition FLDA : list N := [70; 76; 68; 65].
+Definition ex_ft_msgs : list msg :=
+  map (fun x : N * N * list N =>
+         let '(i, n, p) := x in
+         {| m_index := i; m_reception_us := 1000001000000 + i * 1000; m_ecu := (69, 67, 85, 49); m_timestamp := 10000 + i;
+            m_std := {| htyp := 49; mcnt := i; len := 0 |};
+            m_ext := Some {| verb_mstp_mtin := 65; noar := n; apid := (70, 84, 65, 0); ctid := (70, 84, 67, 0) |};
+            m_payload := p |})
+      [(0, 1, ex_str [104; 105]);
+       (1, 8, ex_str [70; 76; 83; 84] ++ ex_u32 7 ++ ex_str [97; 46; 98] ++ ex_u32 4 ++ ex_str [100] ++ ex_u32 2 ++ ex_u32 2 ++ ex_str [70; 76; 83; 84]);
+       (2, 5, ex_str FLDA ++ ex_u32 7 ++ ex_u32 1 ++ ex_raw [100; 97] ++ ex_str FLDA);
+       (3, 1, ex_str [116]);
+       (4, 5, ex_str FLDA ++ ex_u32 7 ++ ex_u32 2 ++ ex_raw [116; 97] ++ ex_str FLDA);
+       (5, 3, ex_str [70; 76; 70; 73] ++ ex_u32 7 ++ ex_str [70; 76; 70; 73])].
+Definition ex_apid_fta : N := ecu_key (70, 84, 65, 0).
+Definition ex_apid_sys : N := ecu_key (83, 89, 83, 0).
+
+Example C02_cli_keep_flda_nonvacuous :
+  exists data,
+    write_all ex_ft_msgs = Ok (WOk data) /\
+    map (fun m => FT.classify (cli_ft_cfg None None None (fun _ => true)) (ft_view m)) ex_ft_msgs
+      = [FT.KOther; FT.KFlst; FT.KFlda; FT.KOther; FT.KFlda; FT.KFlfi] /\
+    convert_o data = Ok (WOk data) /\
+    convert_o_ft None None None (fun _ => true) data = Ok (WOk data) /\
+    convert_o_ft (Some ex_apid_fta) None None (fun _ => false) data = Ok (WOk data) /\
+    (exists short,
+       convert_o_plugins [ft_plugin (cli_ft_cfg_no_keep None None None (fun _ => true))] data = Ok (WOk short) /\
+       short <> data /\
+       match run_iter 0 short with Ok (ms, _, r) => map (fun m => mcnt (m_std m)) ms = [0; 1; 3; 5] /\ r = [] | _ => False end /\
+       convert_o_plugins [ft_plugin (cli_ft_cfg_no_keep (Some ex_apid_fta) None None (fun _ => true))] data = Ok (WOk short)) /\
+    convert_o_plugins [ft_plugin (cli_ft_cfg_no_keep (Some ex_apid_sys) None None (fun _ => true))] data = Ok (WOk data).
+Proof.
+  destruct (write_all ex_ft_msgs) as [[data|p]| |] eqn:E; try (vm_compute in E; discriminate).
+  exists data. vm_compute in E. inversion E; subst data. clear E.
+  split; [reflexivity|]. split; [vm_compute; reflexivity|]. split; [vm_compute; reflexivity|].
+  split; [rewrite C02_export_with_cli_file_transfer_options; vm_compute; reflexivity|].
+  split; [rewrite C02_export_with_cli_file_transfer_options; vm_compute; reflexivity|].
+  split.
+  - eexists. split; [vm_compute; reflexivity|]. split; [discriminate|]. split; [vm_compute; split; reflexivity|].
+    vm_compute; reflexivity.
+  - vm_compute; reflexivity.
+Qed.
 Print Assumptions C02_write_ok.
 Print Assumptions C02_parse_write_fields.
 Print Assumptions C02_write_normal_form.
@@ -319,3 +436,10 @@ Print Assumptions C02_u32_le_roundtrip.
 Print Assumptions C02_u32_be_roundtrip.
 Print Assumptions C02_u32_le_bytes_roundtrip.
 Print Assumptions C02_nonvacuous.
+Print Assumptions C02_plugin_stage_forwards_every_message.
+Print Assumptions C02_export_under_forwarding_plugin_stage.
+Print Assumptions C02_export_under_exact_plugin_stage.
+Print Assumptions C02_file_transfer_forwarding_is_process_msg.
+Print Assumptions C02_export_with_cli_file_transfer_options.
+Print Assumptions C02_convert_export_roundtrip_with_file_transfer_options.
+Print Assumptions C02_cli_keep_flda_nonvacuous.
